@@ -6,6 +6,10 @@ from harness import screens as S
 
 common.use_repo_sources()
 
+import logging
+
+logging.getLogger("batchie").setLevel(logging.ERROR)     # "Could not create single treatment effects array." on every None
+
 import itertools
 import os
 import random
@@ -334,6 +338,293 @@ def outside_quantifier(ctx, res, rng):
             pass
 
 
+# ---------------------------------------------------------------- ExperimentSpace query API, derived properties, combine / concat, single-treatment effects
+
+def support_of_rows(arity, sids, tids):
+    """which rows create_single_treatment_effect_array averages for every cell, computed independently of batchie:
+    'err:ValueError' (arity < 2), None (some cell has no monotherapy row -> KeyError -> property None), or rows of cells (None = control slot)"""
+    if arity < 2:
+        return "err:ValueError"
+    mono = {}
+    for j, (s_, row) in enumerate(zip(sids, tids)):
+        if sum(1 for t in row if t == -1) == arity - 1:
+            mono.setdefault((s_, max(row)), []).append(j)
+    table = []
+    for s_, row in zip(sids, tids):
+        r = []
+        for t in row:
+            if t == -1:
+                r.append(None)
+            elif (s_, t) in mono:
+                r.append(mono[(s_, t)])
+            else:
+                return None
+        table.append(r)
+    return table
+
+
+def support_tok(sup):
+    if sup is None:
+        return "none"
+    if isinstance(sup, str):
+        return sup
+    return "ok " + S.lst((S.lst(("c" if c is None else ".".join(str(j) for j in c)) for c in row) for row in sup), ";")
+
+
+def ste_oracle(res, case, s):
+    """single_treatment_effects of the screen: None exactly when a cell lacks a monotherapy row, else 1.0 on control slots and the mean
+    of the supporting observations elsewhere; returns the token the model's `ste` must reproduce"""
+    sids = [int(x) for x in s.sample_ids]
+    tids = [[int(x) for x in r] for r in np.asarray(s.treatment_ids)]
+    obs = [float(x) for x in s.observations]
+    sup = support_of_rows(int(s.treatment_arity), sids, tids)
+    try:
+        got = s.single_treatment_effects
+        st = "none" if got is None else "arr"
+    except Exception as e:      # noqa: BLE001
+        got, st = None, S.err_tok(e)
+    want = sup if isinstance(sup, str) else ("none" if sup is None else "arr")
+    if st != want:
+        res.fail("single_treatment_effects: None / array / error differs from the monotherapy coverage of the rows", case, st, want, signature="C01:ste:status")
+    elif st == "arr":
+        got = np.asarray(got)
+        ok = got.shape == (len(sids), int(s.treatment_arity))
+        for i, row in enumerate(sup):
+            for c, cell in enumerate(row):
+                if not ok:
+                    break
+                w = 1.0 if cell is None else sum(obs[j] for j in cell) / len(cell)
+                ok = abs(float(got[i, c]) - w) <= 1e-9 * max(1.0, abs(w))
+        if not ok:
+            res.fail("single_treatment_effects is not 1.0 on control slots / the mean of the monotherapy observations elsewhere", case, got.tolist(),
+                     support_tok(sup), signature="C01:ste:value")
+    res.count("ste." + st)
+    return support_tok(sup)
+
+
+def derived_tok(v):
+    return ("size=%d|arity=%d|np=%d|up=%s|us=%s|ut=%s|nus=%d|nut=%d|obs=%s|sss=%d|tss=%d" % (
+        int(v.size), int(v.treatment_arity), int(v.n_plates), S.show_ids(v.unique_plate_ids), S.show_ids(v.unique_sample_ids),
+        S.show_ids(v.unique_treatments), int(v.n_unique_samples), int(v.n_unique_treatments), "1" if bool(v.is_observed) else "0",
+        int(v.sample_space_size), int(v.treatment_space_size)))
+
+
+def derived_oracle(res, case, raw, s):
+    """derived ScreenBase properties recomputed from the id arrays"""
+    pids = [int(x) for x in s.plate_ids]
+    sids = [int(x) for x in s.sample_ids]
+    flat = [int(x) for x in np.asarray(s.treatment_ids).ravel()]
+    want = ("size=%d|arity=%d|np=%d|up=%s|us=%s|ut=%s|nus=%d|nut=%d|obs=%s|sss=%d|tss=%d" % (
+        len(raw["snames"]), raw["arity"], len(set(pids)), S.show_ids(sorted(set(pids))), S.show_ids(sorted(set(sids))),
+        S.show_ids(sorted(set(flat) - {-1})), len(set(sids)), len(set(flat) - {-1}), "1" if all(bool(b) for b in s.observation_mask) else "0",
+        len(s.sample_mapping[0]), len(s.treatment_mapping[0])))
+    got = derived_tok(s)
+    if got != want:
+        res.fail("derived property of a screen differs from its value recomputed from the id arrays", case, got, want, signature="C01:derived")
+    return "ok " + got
+
+
+def gen_mappings(rng):
+    """(kind, ctrl, tmap, smap, batchie_produced): mappings for the ExperimentSpace API stream"""
+    raw = S.gen_raw(rng, n_max=10)
+    kind = rng.choice(["fresh", "superset", "absent-names", "permuted", "dup-sample-id", "dup-sample-name", "empty", "dup-treatment-rows"])
+    if kind == "empty":
+        return kind, raw["ctrl"], ([], [], []), ([], []), False
+    try:
+        if kind == "superset":
+            tm, sm = S.superset_mappings(rng, raw)
+        elif kind == "absent-names":
+            tm, sm, _ = superset_with_absent_names(rng, raw)
+        else:
+            b = S.build(dict(raw, tmap=None, smap=None))
+            tm, sm = b.treatment_mapping, b.sample_mapping
+    except Exception:       # noqa: BLE001
+        return "empty", raw["ctrl"], ([], [], []), ([], []), False
+    tm = ([str(x) for x in tm[0]], [float(x) for x in tm[1]], [int(x) for x in tm[2]])
+    sm = ([str(x) for x in sm[0]], [int(x) for x in sm[1]])
+    produced = kind in ("fresh", "superset", "absent-names")
+    if kind == "permuted":
+        # rows shuffled, non-control ids permuted among themselves (still dense, still a bijection; not sorted any more)
+        nc = sorted(set(i for i in tm[2] if i != -1))
+        perm = dict(zip(nc, rng.sample(nc, len(nc))))
+        order = list(range(len(tm[0])))
+        rng.shuffle(order)
+        tm = ([tm[0][i] for i in order], [tm[1][i] for i in order], [perm.get(tm[2][i], -1) for i in order])
+        so = list(range(len(sm[0])))
+        rng.shuffle(so)
+        sp = dict(zip(sorted(sm[1]), rng.sample(sorted(sm[1]), len(sm[1]))))
+        sm = ([sm[0][i] for i in so], [sp[sm[1][i]] for i in so])
+    elif kind == "dup-sample-id" and len(sm[0]) >= 1:
+        sm = (sm[0] + ["dup_of_id"], sm[1] + [rng.choice(sm[1])])            # .item() on 2 matches
+    elif kind == "dup-sample-name" and len(sm[0]) >= 1:
+        sm = (sm[0] + [rng.choice(sm[0])], sm[1] + [max(sm[1]) + 1])
+    elif kind == "dup-treatment-rows" and len(tm[0]) >= 1:
+        j = rng.randrange(len(tm[0]))
+        tm = (tm[0] + [tm[0][j]], tm[1] + [tm[1][j]], tm[2] + [tm[2][j]])
+    return kind, raw["ctrl"], tm, sm, produced
+
+
+def api_stream(ctx, res, rng, queue):
+    from batchie.data import ExperimentSpace
+    for t in range(ctx.scale(120, 1500)):
+        kind, ctrl, tm, sm, produced = gen_mappings(rng)
+        ndt = object if rng.random() < 0.5 else str
+        es = ExperimentSpace(treatment_mapping=(np.array(tm[0], dtype=ndt), np.array(tm[1], dtype=float), np.array(tm[2], dtype=int)),
+                             sample_mapping=(np.array(sm[0], dtype=ndt), np.array(sm[1], dtype=int)), control_treatment_name=ctrl)
+        case = {"kind": "api:" + kind, "ctrl": ctrl, "tmap": tm, "smap": sm, "names_dtype": "object" if ndt is object else "str"}
+        res.evaluations += 1
+        res.count("api." + kind)
+        api_case(res, case, es, ctrl, tm, sm, produced, queue)
+
+
+def api_case(res, case, es, ctrl, tm, sm, produced, queue=None):
+    tnames = sorted(set(tm[0]) | {ctrl, "name-not-in-the-mapping"})
+    snames = sorted(set(sm[0]) | {"sample-not-in-the-mapping"})
+    sids = sorted(set(sm[1]) | {-1, (max(sm[1]) + 1) if sm[1] else 0})
+    out, queries = [], []
+
+    def call(f, *a):
+        try:
+            return ("ok", f(*a))
+        except Exception as e:      # noqa: BLE001
+            return ("err", S.err_tok(e))
+
+    def fail(what, observed, required, sig):
+        res.fail(what, case, observed, required, signature="C01:api:" + sig)
+
+    counts = call(lambda: (int(es.n_unique_treatments), int(es.n_unique_samples), int(es.n_unique_treatment_types), int(es.n_unique_doses)))
+    if counts[0] != "ok":
+        fail("ExperimentSpace size properties raise", counts[1], "counts", "counts")
+        return
+    nt, ns, ntt, nd = counts[1]
+    want = (len(set(tm[2]) - {-1}), len(set(sm[0])), len(set(tm[0]) - {ctrl}), len(set(d for d in tm[1] if d != 0)))
+    if (nt, ns, ntt, nd) != want:
+        fail("ExperimentSpace counts differ from the distinct ids / sample names / non-control names / non-zero doses of the mappings", [nt, ns, ntt, nd], list(want), "counts")
+    total = 0
+    for n in tnames:
+        ids = call(lambda: [int(x) for x in es.treatment_ids_from_treatment_name(n)])
+        doses = call(lambda: [float(x) for x in es.doses_for_treatment(n)])
+        rows = [i for i in range(len(tm[0])) if tm[0][i] == n]
+        wi = sorted(set(tm[2][i] for i in rows))
+        wd = sorted(set(tm[1][i] for i in rows if tm[1][i] != 0))
+        if ids != ("ok", wi):
+            fail("treatment_ids_from_treatment_name is not the sorted distinct ids of the mapping rows with that name", {"name": n, "got": ids[1]}, wi, "ids-of-name")
+        if doses[0] != "ok" or [S.bits(x) for x in doses[1]] != [S.bits(x) for x in wd]:
+            fail("doses_for_treatment is not the sorted distinct non-zero doses of that name", {"name": n, "got": doses[1]}, wd, "doses-of-name")
+        total += len(set(wi) - {-1})
+        queries.append("t" + S.name_tok(n))
+        out.append("ids=" + (S.show_ids(ids[1]) if ids[0] == "ok" else ids[1]) + ";doses=" + (S.lst(S.dose_tok(x) for x in doses[1]) if doses[0] == "ok" else doses[1]))
+    if produced and total != nt:
+        fail("n_unique_treatments is not the sum over names of the non-control ids of that name (batchie-produced mapping)", nt, total, "sum-over-names")
+    for n in snames:
+        r = call(lambda: int(es.sample_id_from_sample_name(n)))
+        m = [sm[1][i] for i in range(len(sm[0])) if sm[0][i] == n]
+        w = ("ok", m[0]) if len(m) == 1 else ("err", "err:ValueError")
+        if r != w:
+            fail("sample_id_from_sample_name: the id of the single matching row, ValueError for 0 or >= 2 matches", {"name": n, "got": r[1]}, w[1], "id-from-name")
+        if produced and r[0] == "ok":
+            back = call(lambda: str(es.sample_name_from_sample_id(r[1])))
+            if back != ("ok", n):
+                fail("sample_name_from_sample_id(sample_id_from_sample_name(n)) != n on a batchie-produced mapping", {"name": n, "id": r[1], "back": back[1]}, n, "inverse")
+        queries.append("s" + S.name_tok(n))
+        out.append(str(r[1]))
+    for i in sids:
+        r = call(lambda: str(es.sample_name_from_sample_id(i)))
+        m = [sm[0][k] for k in range(len(sm[0])) if sm[1][k] == i]
+        w = ("ok", m[0]) if len(m) == 1 else ("err", "err:ValueError")
+        if r != w:
+            fail("sample_name_from_sample_id: the name of the single matching row, ValueError for 0 or >= 2 matches", {"id": i, "got": r[1]}, w[1], "name-from-id")
+        if produced and r[0] == "ok":
+            back = call(lambda: int(es.sample_id_from_sample_name(r[1])))
+            if back != ("ok", i):
+                fail("sample_id_from_sample_name(sample_name_from_sample_id(i)) != i on a batchie-produced mapping", {"id": i, "name": r[1], "back": back[1]}, i, "inverse")
+        queries.append("i%d" % i)
+        out.append(S.name_tok(r[1]) if r[0] == "ok" else r[1])
+    if queue is not None:
+        tmt = S.lst("%s:%s:%d" % (S.name_tok(a), S.dose_tok(b), c) for a, b, c in zip(*tm))
+        smt = S.lst("%s:%d" % (S.name_tok(a), c) for a, c in zip(*sm))
+        queue("spaceapi %s %s %s %s" % (S.name_tok(case["ctrl"]), tmt, smt, S.lst(queries)),
+              "ok nt=%d ns=%d ntt=%d nd=%d" % (nt, ns, ntt, nd) + "".join("|" + o for o in out), case)
+
+
+def rows_sig(s):
+    return (np.asarray(s.treatment_names).tolist(), [[S.bits(x) for x in r] for r in np.asarray(s.treatment_doses)], [str(x) for x in s.sample_names],
+            [str(x) for x in s.plate_names], [S.bits(x) for x in s.observations], [bool(b) for b in s.observation_mask])
+
+
+def combine_case(res, case, raws, queue=None):
+    """Screen.combine (2 screens) / Screen.concat (k screens): rows concatenated in order, fresh encoding of the union, parts untouched"""
+    from batchie.data import Screen
+    parts = []
+    for j, r in enumerate(raws):
+        same = case.get("mode") == "same-object-twice" and j == len(raws) - 1 and j > 0
+        parts.append(parts[0] if same else S.build(r))
+    before = [(rows_sig(p), S.show_screen(p)) for p in parts]
+    praws = [S.raw_of_screen(p) for p in parts]
+    conflict = False
+    if parts:
+        st = {}
+        for pr in praws:
+            for pn, mk in zip(pr["pnames"], pr["mask"]):
+                conflict = conflict or st.setdefault(pn, mk) != mk
+    must_ok = len(parts) >= 1 and (len(parts) == 1 or (len(set(r["ctrl"] for r in raws)) == 1 and len(set(r["arity"] for r in raws)) == 1 and not conflict))
+    try:
+        t = parts[0].combine(parts[1]) if case["kind"] == "combine" else Screen.concat(parts)
+        out = S.show_screen(t) + "|" + S.show_rows(t)
+    except Exception as e:      # noqa: BLE001
+        t, out = None, S.err_tok(e)
+    if t is None and must_ok:
+        res.fail("combine / concat of compatible screens raises", case, out, "a screen", signature="C01:combine:raises")
+    if t is not None and not must_ok:
+        res.fail("combine / concat of incompatible screens (control name, arity, or a plate observed in one and unobserved in the other) accepted", case,
+                 out[:200], "ValueError", signature="C01:combine:accepted")
+    if t is not None and must_ok:
+        want = tuple(sum((list(b[0][k]) for b in before), []) for k in range(6))
+        if rows_sig(t) != want:
+            res.fail("combine / concat: rows are not the parts' rows concatenated in order", case, [x[:6] for x in rows_sig(t)], [x[:6] for x in want],
+                     signature="C01:combine:rows")
+        else:
+            craw = dict(ctrl=raws[0]["ctrl"], arity=raws[0]["arity"], tnames=sum((r["tnames"] for r in praws), []), tdoses=sum((r["tdoses"] for r in praws), []),
+                        snames=sum((r["snames"] for r in praws), []), pnames=sum((r["pnames"] for r in praws), []), obs=None, mask=None, tmap=None, smap=None)
+            oracle(res, case, craw, t)          # every cell of the union decodes, fresh dense ids, control sentinel
+    for p, b in zip(parts, before):
+        if (rows_sig(p), S.show_screen(p)) != b:
+            res.fail("combine / concat changed one of its operands", case, S.show_screen(p)[:200], b[1][:200], signature="C01:combine:operand-mutated")
+    if queue is not None:
+        toks = " ".join(S.raw_to_tokens(r) for r in raws)
+        queue(("combine " + toks) if case["kind"] == "combine" else ("concat %d %s" % (len(raws), toks)).strip(), out, case)
+
+
+def combine_stream(ctx, res, rng, queue):
+    for t in range(ctx.scale(80, 1000)):
+        k = rng.choice([2, 2, 2, 3, 1, 0]) if rng.random() < 0.4 else 2
+        kind = "combine" if k == 2 and rng.random() < 0.6 else "concat"
+        arity = rng.choice([1, 2, 2, 3])
+        ctrl = rng.choice(["", "control", "dmso"])
+        names = rng.sample(S.NAME_POOL, rng.randint(2, 4))
+        plates = rng.sample(S.NAME_POOL, 6)
+        mode = rng.choice(["ok", "ok", "ok", "shared-plates", "ctrl-differs", "arity-differs"])
+        raws = []
+        for j in range(k):
+            r = S.gen_raw(rng, n_max=6, arity=arity if not (mode == "arity-differs" and j == k - 1) else (arity % 3) + 1,
+                          ctrl=ctrl if not (mode == "ctrl-differs" and j == k - 1) else ctrl + "x",
+                          names=names + ([rng.choice(ABSENT_NAMES)] if rng.random() < 0.4 else []), with_obs=rng.random() < 0.85)
+            # disjoint plate names per part unless the mode shares them (a shared plate may be observed in one part and not in the other)
+            pool = plates if mode == "shared-plates" else plates[2 * (j % 3):2 * (j % 3) + 2]
+            st = {q: rng.random() < 0.5 for q in pool}
+            r["pnames"] = [rng.choice(pool) for _ in r["snames"]]
+            if r["obs"] is not None:
+                r["mask"] = [st[q] for q in r["pnames"]]
+            raws.append(r)
+        if mode == "ok" and k >= 2 and rng.random() < 0.25:
+            mode = "same-object-twice"          # Screen.concat([a, a]) / a.combine(a): the very same object twice
+            raws[-1] = raws[0]
+        case = {"kind": kind, "raws": raws, "mode": mode}
+        res.evaluations += 1
+        res.count("combine.%s.%s" % (kind, mode))
+        combine_case(res, case, raws, queue)
+
+
 def run(ctx, res):
     res.rule = RULE
     rng = ctx.subrng("c01")
@@ -397,6 +688,13 @@ def run(ctx, res):
                 lines.append("espace " + S.raw_to_tokens(raw))
                 expect.append(sp)
                 cases.append(dict(case, kind=kind + ":espace"))
+                if kind != "exhaustive":
+                    lines.append("derived " + S.raw_to_tokens(raw))
+                    expect.append(derived_oracle(res, case, raw, s))
+                    cases.append(dict(case, kind=kind + ":derived"))
+                    lines.append("ste " + S.raw_to_tokens(raw))
+                    expect.append(ste_oracle(res, case, s))
+                    cases.append(dict(case, kind=kind + ":ste"))
                 cells = [(nm, d) for rn, rd in zip(raw["tnames"], raw["tdoses"]) for nm, d in zip(rn, rd)]
                 nctl = sum(1 for nm, d in cells if nm == raw["ctrl"] or d <= 0)
                 nn = len(set((nm, d) for nm, d in cells if not (nm == raw["ctrl"] or d <= 0)))
@@ -410,6 +708,14 @@ def run(ctx, res):
     finally:
         shutil.rmtree(tmpdir, ignore_errors=True)
     outside_quantifier(ctx, res, ctx.subrng("c01", "outside"))
+
+    def queue(line, out, case):
+        lines.append(line)
+        expect.append(out)
+        cases.append(case)
+
+    api_stream(ctx, res, ctx.subrng("c01", "api"), queue)
+    combine_stream(ctx, res, ctx.subrng("c01", "combine"), queue)
     # malformed stream
     for t in range(ctx.scale(60, 600)):
         raw = S.gen_raw(rng, n_max=8)
@@ -495,6 +801,19 @@ def run(ctx, res):
 
 
 def replay(ctx, case, res):
+    if case["kind"].startswith("api:"):
+        from batchie.data import ExperimentSpace
+        tm, sm = case["tmap"], case["smap"]
+        tm = ([str(x) for x in tm[0]], [float(x) for x in tm[1]], [int(x) for x in tm[2]])
+        sm = ([str(x) for x in sm[0]], [int(x) for x in sm[1]])
+        ndt = object if case.get("names_dtype") == "object" else str
+        es = ExperimentSpace(treatment_mapping=(np.array(tm[0], dtype=ndt), np.array(tm[1], dtype=float), np.array(tm[2], dtype=int)),
+                             sample_mapping=(np.array(sm[0], dtype=ndt), np.array(sm[1], dtype=int)), control_treatment_name=case["ctrl"])
+        api_case(res, case, es, case["ctrl"], tm, sm, case["kind"] in ("api:fresh", "api:superset", "api:absent-names"))
+        return
+    if case["kind"] in ("combine", "concat"):
+        combine_case(res, case, case["raws"])
+        return
     raw = case["raw"]
     try:
         s, arrs, before = build_variant(raw, case.get("variant", "c"), case.get("vseed", 0))
@@ -507,6 +826,8 @@ def replay(ctx, case, res):
         return
     check_inputs_unchanged(res, case, arrs, before)
     oracle(res, case, raw, s)
+    derived_oracle(res, case, raw, s)
+    ste_oracle(res, case, s)
     tmpdir = tempfile.mkdtemp(prefix="c01_")
     try:
         space_oracle(res, case, raw, s, tmpdir, True)
